@@ -833,6 +833,8 @@ class Interp:
             raise Interp.NoMerge()
         if ta is Opaque and tb is Opaque:
             if a.tag == b.tag:
+                if a.data != b.data and (a.data is not None or b.data is not None):
+                    raise Interp.NoMerge()      # same kind of abstract value, different contents (terms): keep the paths apart
                 return a
             if a.tag == "uninit":
                 return b
@@ -1170,8 +1172,8 @@ class Interp:
             model = self.models.get(cal["decl"])
         if model is None:
             model = self.find_pattern_model(cal)
-        if model is not None:
-            r_ = model(self, st, fr, t, args)
+        r_ = model(self, st, fr, t, args) if model is not None else None
+        if r_ is not None:      # a model may decline (None): the callee is then unknown
             if isinstance(r_, tuple) and len(r_) == 4 and r_[0] == "tailcall":
                 # the model continues in a body of the crate; its result is post-processed
                 _, bkey, bargs, transform = r_
